@@ -67,7 +67,9 @@ def build_config(sc, **over):
         "function_estimators": [{"method": "mean"}, {"method": "mean" if sc["merged"] else "stddev"}],
         "realization_filters": [
             {"method": "sort-objective", "options": {"sort": [0], "first": first, "last": last}},
-            {"method": "cvar-objective", "options": {"sort": [1], "percentile": 0.5}}],
+            {"method": "cvar-objective", "options": {"sort": [1], "percentile": 0.5}},
+            {"method": "cvar-constraint", "options": {"sort": 0, "percentile": 0.5}},
+            {"method": "sort-constraint", "options": {"sort": 0, "first": first, "last": last}}],
         "gradient": {"number_of_perturbations": sc["P"], "perturbation_min_success": sc["pms"],
                      "perturbation_magnitudes": MAGNITUDE, "merge_realizations": bool(sc["merged"])},
         "samplers": [{"method": "rvdesign/design", "shared": bool(sc.get("shared", False))}],
